@@ -1,0 +1,60 @@
+//! Serializer-side scalar hooks (ser_quoting.rs, ser.rs helpers, wrapping.rs, zmij_format.rs) for C12.
+//!
+//! Every function is a thin wrapper: it calls exactly one crate-private item and returns what that
+//! item wrote. No behaviour change; compiled only with the `verif_hooks` feature.
+pub use crate::ser::verif_serq::{
+    key_sink, key_sink_str, needs_double_quotes, write_plain_or_quoted, write_plain_or_quoted_value,
+    write_quoted, write_single_quoted,
+};
+pub use crate::ser_quoting::verif_access::{is_ambiguous, is_ambiguous_value, is_numeric_looking};
+
+/// `ser_quoting::is_plain_safe` — panics exactly when the real function panics (it indexes `bytes[0]`).
+pub fn is_plain_safe(s: &str) -> bool {
+    crate::ser_quoting::is_plain_safe(s)
+}
+/// `ser_quoting::is_plain_value_safe`
+pub fn is_plain_value_safe(s: &str, yaml_12: bool, in_flow: bool) -> bool {
+    crate::ser_quoting::is_plain_value_safe(s, yaml_12, in_flow)
+}
+/// `wrapping::first_line_leading_spaces`
+pub fn first_line_leading_spaces(s: &str) -> usize {
+    crate::wrapping::first_line_leading_spaces(s)
+}
+/// `wrapping::write_folded_block`
+pub fn write_folded_block(s: &str, indent: usize, indent_step: usize, folded_wrap_col: usize) -> Option<String> {
+    let mut out = String::new();
+    crate::wrapping::write_folded_block(&mut out, s, indent, indent_step, folded_wrap_col).ok()?;
+    Some(out)
+}
+/// `zmij_format::push_float_string::<f64>`
+pub fn push_float_string_f64(v: f64) -> Option<String> {
+    let mut out = String::new();
+    crate::zmij_format::push_float_string(&mut out, v).ok()?;
+    Some(out)
+}
+/// `zmij_format::push_float_string::<f32>`
+pub fn push_float_string_f32(v: f32) -> Option<String> {
+    let mut out = String::new();
+    crate::zmij_format::push_float_string(&mut out, v).ok()?;
+    Some(out)
+}
+/// `zmij_format::write_float_string::<f64>` (the twin used by `serialize_f64`)
+pub fn write_float_string_f64(v: f64) -> Option<String> {
+    let mut out = String::new();
+    crate::zmij_format::write_float_string(&mut out, v).ok()?;
+    Some(out)
+}
+/// `zmij_format::write_float_string::<f32>`
+pub fn write_float_string_f32(v: f32) -> Option<String> {
+    let mut out = String::new();
+    crate::zmij_format::write_float_string(&mut out, v).ok()?;
+    Some(out)
+}
+/// The external crate's raw output (`zmij::Buffer::format_finite`) that `push_float_string` normalises.
+/// `None` for non-finite values (the crate never calls zmij on them).
+pub fn zmij_raw_f64(v: f64) -> Option<String> {
+    if v.is_finite() { Some(zmij::Buffer::new().format_finite(v).to_string()) } else { None }
+}
+pub fn zmij_raw_f32(v: f32) -> Option<String> {
+    if v.is_finite() { Some(zmij::Buffer::new().format_finite(v).to_string()) } else { None }
+}
